@@ -15,6 +15,8 @@ pub struct Recorder {
     out: std::io::BufWriter<std::fs::File>,
     pub events: u64,
     pub floats: Vec<f64>,
+    /// operand pairs of the binary float primitives; when non-empty primgen tabulates exactly these pairs
+    pub pairs: Vec<(f64, f64)>,
     pub ints: Vec<i64>,
     pub words: Vec<String>,
     pub strings: Vec<String>,
@@ -36,6 +38,7 @@ impl Recorder {
             out: std::io::BufWriter::new(std::fs::File::create(path).expect("trace file")),
             events: 0,
             floats: vec![],
+            pairs: vec![],
             ints: vec![],
             words: vec![],
             strings: vec![],
@@ -73,12 +76,19 @@ impl Recorder {
 
     pub fn finish(mut self, primreq: &str) {
         self.out.flush().expect("flush");
-        let req = json!({
+        self.floats.sort_by_key(|f| f.to_bits());
+        self.floats.dedup_by_key(|f| f.to_bits());
+        let mut req = json!({
             "floats": self.floats.iter().map(|f| float_words(*f)).collect::<Vec<_>>(),
             "ints": self.ints.iter().map(|i| int_limbs(*i)).collect::<Vec<_>>(),
             "strings": self.strings.iter().map(|s| cps(s)).collect::<Vec<_>>(),
             "words": self.words.iter().map(|s| cps(s)).collect::<Vec<_>>(),
         });
+        if !self.pairs.is_empty() {
+            self.pairs.sort_by_key(|(a, b)| (a.to_bits(), b.to_bits()));
+            self.pairs.dedup_by_key(|(a, b)| (a.to_bits(), b.to_bits()));
+            req["pairs"] = J::Array(self.pairs.iter().map(|(a, b)| json!([float_words(*a), float_words(*b)])).collect());
+        }
         std::fs::write(primreq, req.to_string()).expect("primreq");
     }
 }
@@ -572,9 +582,14 @@ pub fn gen_histories(rec: &mut Recorder, rng: &mut StdRng, n: usize) {
         let name = names.choose(rng).unwrap().clone();
         let pick = rng.gen_range(0..20);
         if pick == 0 {
+            // every second time onto an existing context with `Clone::clone_from` (a hand-written clone_from is a second
+            // implementation of cloning)
             let c = slots[s].clone();
-            let post = project(c.as_ref().unwrap(), &log);
-            slots[1 - s] = c;
+            match (c, slots[1 - s].as_mut()) {
+                (Some(src), Some(dst)) if rng.gen_bool(0.5) => dst.clone_from(&src),
+                (src, _) => slots[1 - s] = src,
+            }
+            let post = project(slots[1 - s].as_ref().unwrap(), &log);
             rec.emit(json!({"ev": "clone", "slot": s, "to": 1 - s, "post": post}));
             continue;
         }
@@ -791,6 +806,16 @@ pub fn gen_threads(rec: &mut Recorder, rng: &mut StdRng, iters: usize, nthreads:
         render_inline(&ast, rng, &mut toks);
         sources.push(toks.join(" "));
     }
+    // DEEP and LONG evaluations: many threads are inside the evaluator at the same time for a long stretch, each several
+    // hundred frames down.  Process-wide state that is only wrong while evaluations overlap (a shared depth or step
+    // counter, a shared scratch stack) needs exactly this to show.
+    let first_deep = sources.len();
+    for d in [100usize, 200] {
+        sources.push(format!("{}x + 1{}", "(".repeat(d), ")".repeat(d)));
+        sources.push(format!("{}x", "-".repeat(d)));
+        sources.push(format!("{}x{}", "f(".repeat(d / 2), ")".repeat(d / 2)));
+    }
+    sources.push((0..100).map(|i| format!("(x + {})", i % 9)).collect::<Vec<_>>().join(" + "));
     let trees: Vec<Option<Tree>> = sources.iter().map(|s| build_operator_tree::<DefaultNumericTypes>(s).ok()).collect();
     let shared = Arc::new((c, sources.clone(), trees));
     let seeds: Vec<u64> = (0..nthreads).map(|_| rng.gen()).collect();
@@ -804,7 +829,9 @@ pub fn gen_threads(rec: &mut Recorder, rng: &mut StdRng, iters: usize, nthreads:
             let mut seen: BTreeMap<(usize, &'static str, bool, String), (J, u64)> = BTreeMap::new();
             for _ in 0..iters {
                 let i = rng.gen_range(0..sources.len());
-                let kind = KINDS[rng.gen_range(0..KINDS.len())];
+                // the deep programs through two projections only: each distinct (program, entry point, result) is one event, and
+                // the specification needs seconds to parse a text of a thousand tokens
+                let kind = if i >= first_deep { [Kind::Value, Kind::Int][rng.gen_range(0..2)] } else { KINDS[rng.gen_range(0..KINDS.len())] };
                 let tree_level = rng.gen_bool(0.5) && trees[i].is_some();
                 let r = guard(|| {
                     if tree_level {
@@ -1273,4 +1300,390 @@ pub fn gen_macros(rec: &mut Recorder, _rng: &mut StdRng, _n: usize) {
     created(rec, all.iter().map(|(n, v)| entry(n, false, Value::Float(*v))).collect(), r);
     let r: Result<HashMapContext<DefaultNumericTypes>, E> = math_consts_context!(E, PI);
     created(rec, vec![entry("E", false, Value::Float(k::E)), entry("PI", false, Value::Float(k::PI))], r);
+}
+
+// ------------------------------------------------------------------------------------------------
+// generator "floatprogs": NESTED float / mixed int-float arithmetic inside programs (C03 C04 C08)
+//
+// The other program generators keep to integers, because the specification can only evaluate a float operation whose
+// operands are in the environment-primitive table, and the operands of an inner operation are results of outer ones.
+// Here a SHADOW evaluator (plain f64 / checked i64 arithmetic on the generator's own AST, no evalexpr involved) walks the
+// program first and lists every operand pair and every float it meets; primgen tabulates the primitives on exactly those.
+// The shadow only decides WHICH FACTS ARE TABULATED, never an expected result: the specification evaluates the program
+// itself from the table.  A fact that is missing (the shadow took another path than the specification) is a tool error
+// (exit 2), a superfluous one is harmless.
+// ------------------------------------------------------------------------------------------------
+#[derive(Clone, Debug)]
+enum FAst {
+    Lit(&'static str),
+    Read(&'static str),
+    Neg(Box<FAst>),
+    Bin(&'static str, Box<FAst>, Box<FAst>),
+    Call1(&'static str, Box<FAst>),
+    If(Box<FAst>, Box<FAst>, Box<FAst>),
+    Assign(&'static str, &'static str, Box<FAst>),
+    Chain(Vec<FAst>),
+}
+#[derive(Clone, Copy, Debug)]
+enum Sv {
+    I(i64),
+    F(f64),
+    B(bool),
+    U,
+}
+const FVARS: [&str; 4] = ["a", "b", "c", "d"];
+const IVARS: [&str; 2] = ["i", "j"];
+const FLITS: [&str; 12] = ["0.5", "1.5", "2.0", "1e3", "2.5e-3", ".25", "3", "2", "0", "10", "7", "0.1"];
+const FARITH: [&str; 6] = ["+", "-", "*", "/", "%", "^"];
+const FCMP: [&str; 6] = ["<", ">", "<=", ">=", "==", "!="];
+const FCALL1: [&str; 8] = ["floor", "ceil", "round", "math::sqrt", "math::abs", "math::exp", "math::ln", "math::cbrt"];
+const FASSIGN: [&str; 7] = ["=", "+=", "-=", "*=", "/=", "%=", "^="];
+
+fn gen_fnum(rng: &mut StdRng, depth: u32) -> FAst {
+    if depth == 0 || rng.gen_range(0..10) < 2 {
+        return match rng.gen_range(0..10) {
+            0..=4 => FAst::Read(FVARS.choose(rng).unwrap()),
+            5..=6 => FAst::Read(IVARS.choose(rng).unwrap()),
+            _ => FAst::Lit(FLITS.choose(rng).unwrap()),
+        };
+    }
+    match rng.gen_range(0..14) {
+        12..=13 => {
+            // a left-deep run of one precedence level ending in literals, the way sums are written by hand: `a + 1 + 2`,
+            // `b * 2 / 3 * 0.5`.  Re-associating it (constant folding of the trailing literals) is exact on integers and
+            // changes the rounding on floats.
+            let ops: &[&'static str] = if rng.gen_bool(0.6) { &["+", "-"] } else { &["*", "/", "%"] };
+            let mut acc = gen_fnum(rng, depth - 1);
+            for k in 0..rng.gen_range(2..5) {
+                let term = if k > 0 || rng.gen_bool(0.7) { FAst::Lit(FLITS.choose(rng).unwrap()) } else { gen_fnum(rng, 0) };
+                acc = FAst::Bin(ops.choose(rng).unwrap(), Box::new(acc), Box::new(term));
+            }
+            acc
+        },
+        0..=7 => FAst::Bin(FARITH.choose(rng).unwrap(), Box::new(gen_fnum(rng, depth - 1)), Box::new(gen_fnum(rng, depth - 1))),
+        8 => FAst::Neg(Box::new(gen_fnum(rng, depth - 1))),
+        9..=10 => FAst::Call1(FCALL1.choose(rng).unwrap(), Box::new(gen_fnum(rng, depth - 1))),
+        _ => FAst::If(Box::new(gen_fbool(rng, depth - 1)), Box::new(gen_fnum(rng, depth - 1)), Box::new(gen_fnum(rng, depth - 1))),
+    }
+}
+fn gen_fbool(rng: &mut StdRng, depth: u32) -> FAst {
+    if depth > 0 && rng.gen_range(0..5) == 0 {
+        return FAst::Bin(if rng.gen_bool(0.5) { "&&" } else { "||" }, Box::new(gen_fbool(rng, depth - 1)), Box::new(gen_fbool(rng, depth - 1)));
+    }
+    FAst::Bin(FCMP.choose(rng).unwrap(), Box::new(gen_fnum(rng, depth)), Box::new(gen_fnum(rng, depth)))
+}
+fn gen_fstmt(rng: &mut StdRng, depth: u32) -> FAst {
+    match rng.gen_range(0..10) {
+        0..=4 => {
+            let v = if rng.gen_range(0..6) == 0 { *IVARS.choose(rng).unwrap() } else { *FVARS.choose(rng).unwrap() };
+            FAst::Assign(v, FASSIGN.choose(rng).unwrap(), Box::new(gen_fnum(rng, depth)))
+        },
+        5 => gen_fbool(rng, depth),
+        _ => gen_fnum(rng, depth),
+    }
+}
+fn fprec(a: &FAst) -> i32 {
+    match a {
+        FAst::Bin(op, ..) => prec(op),
+        FAst::Assign(..) => 50,
+        FAst::Neg(..) => 110,
+        FAst::Chain(..) => 0,
+        _ => 200,
+    }
+}
+fn frender(a: &FAst, min: i32, rng: &mut StdRng, out: &mut String) {
+    let need = fprec(a) < min || (rng.gen_range(0..10) == 0);
+    if need {
+        out.push('(');
+    }
+    match a {
+        FAst::Lit(w) => out.push_str(w),
+        FAst::Read(n) => out.push_str(n),
+        FAst::Neg(x) => {
+            out.push('-');
+            frender(x, 110, rng, out);
+        },
+        FAst::Bin(op, l, r) => {
+            let p = prec(op);
+            frender(l, p, rng, out);
+            out.push_str(&format!(" {op} "));
+            frender(r, p + 1, rng, out);
+        },
+        FAst::Call1(n, x) => {
+            out.push_str(n);
+            out.push('(');
+            frender(x, 50, rng, out);
+            out.push(')');
+        },
+        FAst::If(c, x, y) => {
+            out.push_str("if(");
+            frender(c, 50, rng, out);
+            out.push_str(", ");
+            frender(x, 50, rng, out);
+            out.push_str(", ");
+            frender(y, 50, rng, out);
+            out.push(')');
+        },
+        FAst::Assign(n, op, rhs) => {
+            out.push_str(&format!("{n} {op} "));
+            frender(rhs, 51, rng, out);
+        },
+        FAst::Chain(es) => {
+            for (k, e) in es.iter().enumerate() {
+                if k > 0 {
+                    out.push_str("; ");
+                }
+                frender(e, 50, rng, out);
+            }
+        },
+    }
+    if need {
+        out.push(')');
+    }
+}
+
+struct Shadow<'a> {
+    env: std::collections::HashMap<&'static str, Sv>,
+    floats: &'a mut Vec<f64>,
+    pairs: &'a mut Vec<(f64, f64)>,
+    mutable: bool,
+}
+impl Shadow<'_> {
+    fn num(&mut self, v: Sv) -> Option<f64> {
+        match v {
+            Sv::I(i) => {
+                let f = i as f64;
+                self.floats.push(f);
+                Some(f)
+            },
+            Sv::F(f) => Some(f),
+            _ => None,
+        }
+    }
+    fn float(&mut self, f: f64) -> Option<Sv> {
+        self.floats.push(f);
+        Some(Sv::F(f))
+    }
+    fn arith(&mut self, op: &str, l: Sv, r: Sv) -> Option<Sv> {
+        if let (Sv::I(x), Sv::I(y), true) = (l, r, op != "^") {
+            return match op {
+                "+" => x.checked_add(y),
+                "-" => x.checked_sub(y),
+                "*" => x.checked_mul(y),
+                "/" => x.checked_div(y),
+                _ => x.checked_rem(y),
+            }
+            .map(Sv::I);
+        }
+        let (x, y) = (self.num(l)?, self.num(r)?);
+        self.pairs.push((x, y));
+        self.float(match op {
+            "+" => x + y,
+            "-" => x - y,
+            "*" => x * y,
+            "/" => x / y,
+            "%" => x % y,
+            _ => x.powf(y),
+        })
+    }
+    fn eval(&mut self, a: &FAst) -> Option<Sv> {
+        match a {
+            FAst::Lit(w) => match w.parse::<i64>() {
+                Ok(i) => Some(Sv::I(i)),
+                Err(_) => self.float(w.parse::<f64>().unwrap()),
+            },
+            FAst::Read(n) => self.env.get(n).copied(),
+            FAst::Neg(x) => match self.eval(x)? {
+                Sv::I(i) => i.checked_neg().map(Sv::I),
+                Sv::F(f) => self.float(-f),
+                _ => None,
+            },
+            FAst::Bin(op, l, r) => {
+                let (l, r) = (self.eval(l)?, self.eval(r)?);
+                match *op {
+                    "&&" | "||" => match (l, r) {
+                        (Sv::B(x), Sv::B(y)) => Some(Sv::B(if *op == "&&" { x && y } else { x || y })),
+                        _ => None,
+                    },
+                    "==" | "!=" => {
+                        // structural: an Int never equals a Float
+                        let eq = match (l, r) {
+                            (Sv::I(x), Sv::I(y)) => x == y,
+                            (Sv::F(x), Sv::F(y)) => x == y,
+                            (Sv::B(x), Sv::B(y)) => x == y,
+                            (Sv::U, Sv::U) => true,
+                            _ => false,
+                        };
+                        Some(Sv::B(eq == (*op == "==")))
+                    },
+                    "<" | ">" | "<=" | ">=" => {
+                        let ord = |o: &str, c: std::cmp::Ordering| match o {
+                            "<" => c.is_lt(),
+                            ">" => c.is_gt(),
+                            "<=" => c.is_le(),
+                            _ => c.is_ge(),
+                        };
+                        if let (Sv::I(x), Sv::I(y)) = (l, r) {
+                            return Some(Sv::B(ord(op, x.cmp(&y))));
+                        }
+                        let (x, y) = (self.num(l)?, self.num(r)?);
+                        Some(Sv::B(match *op {
+                            "<" => x < y,
+                            ">" => x > y,
+                            "<=" => x <= y,
+                            _ => x >= y,
+                        }))
+                    },
+                    _ => self.arith(op, l, r),
+                }
+            },
+            FAst::Call1(n, x) => {
+                let v = self.eval(x)?;
+                if *n == "math::abs" {
+                    return match v {
+                        Sv::I(i) => i.checked_abs().map(Sv::I),
+                        Sv::F(f) => self.float(f.abs()),
+                        _ => None,
+                    };
+                }
+                let f = self.num(v)?;
+                self.float(match *n {
+                    "floor" => f.floor(),
+                    "ceil" => f.ceil(),
+                    "round" => f.round(),
+                    "math::sqrt" => f.sqrt(),
+                    "math::exp" => f.exp(),
+                    "math::ln" => f.ln(),
+                    _ => f.cbrt(),
+                })
+            },
+            FAst::If(c, x, y) => {
+                // `if` is a function: all three arguments are evaluated first
+                let (c, x, y) = (self.eval(c)?, self.eval(x)?, self.eval(y)?);
+                match c {
+                    Sv::B(true) => Some(x),
+                    Sv::B(false) => Some(y),
+                    _ => None,
+                }
+            },
+            FAst::Assign(n, op, rhs) => {
+                let r = self.eval(rhs)?;
+                if !self.mutable {
+                    return None;
+                }
+                let new = if *op == "=" {
+                    r
+                } else {
+                    let cur = self.env.get(n).copied()?;
+                    self.arith(&op[..op.len() - 1], cur, r)?
+                };
+                let same = matches!(
+                    (self.env.get(n), new),
+                    (Some(Sv::I(_)), Sv::I(_)) | (Some(Sv::F(_)), Sv::F(_)) | (Some(Sv::B(_)), Sv::B(_)) | (Some(Sv::U), Sv::U) | (None, _)
+                );
+                if !same {
+                    return None;
+                }
+                self.env.insert(n, new);
+                Some(Sv::U)
+            },
+            FAst::Chain(es) => {
+                let mut last = Sv::U;
+                for e in es {
+                    last = self.eval(e)?;
+                }
+                Some(last)
+            },
+        }
+    }
+}
+
+pub fn gen_floatprogs(rec: &mut Recorder, rng: &mut StdRng, n: usize) {
+    use crate::entry::*;
+    let log: Log = Default::default();
+    let probe: Vec<String> = vec!["never_defined".into()];
+    rec.words.extend(FLITS.iter().filter(|w| w.parse::<i64>().is_err()).map(|w| w.to_string()));
+    let mut c = HashMapContext::<DefaultNumericTypes>::new();
+    let mut env: std::collections::HashMap<&'static str, Sv> = Default::default();
+    // moderate magnitudes most of the time, so that nested results stay finite and distinct; the edge values now and then
+    let pick_float = |rng: &mut StdRng| -> f64 {
+        match rng.gen_range(0..11) {
+            // where one more rounding shows: the end of the exactly representable integers, and fractions without a finite
+            // binary expansion
+            10 => *[9007199254740992.0, -9007199254740992.0, 9007199254740994.0, 1e16, 0.1, 1.0 / 3.0, 1e-17, 4503599627370497.5].choose(rng).unwrap(),
+            0..=1 => rand_float(rng),
+            2..=5 => (rng.gen_range(-4000..4000) as f64) / 16.0,
+            _ => (rng.gen::<f64>() - 0.5) * 10f64.powi(rng.gen_range(-3..6)),
+        }
+    };
+    let mut fresh = true;
+    for k in 0..n {
+        if fresh || k % 12 == 0 {
+            c = HashMapContext::new();
+            env.clear();
+            let mut vars: Vec<(String, V)> = Vec::new();
+            for v in FVARS {
+                let f = pick_float(rng);
+                rec.floats.push(f);
+                env.insert(v, Sv::F(f));
+                vars.push((v.to_string(), Value::Float(f)));
+            }
+            for v in IVARS {
+                let i = if rng.gen_bool(0.6) { rng.gen_range(-9..10) } else { rand_int(rng) };
+                env.insert(v, Sv::I(i));
+                vars.push((v.to_string(), Value::Int(i)));
+            }
+            for (n, v) in &vars {
+                c.set_value(n.clone(), v.clone()).unwrap();
+            }
+            rec.emit(json!({"ev": "ctx", "slot": 0, "ctx": ctx_json(&vars, &[], false)}));
+            fresh = false;
+        }
+        let depth = rng.gen_range(1..5);
+        let ast = if rng.gen_range(0..3) == 0 {
+            FAst::Chain((0..rng.gen_range(2..4)).map(|_| gen_fstmt(rng, depth.min(3))).collect())
+        } else {
+            gen_fstmt(rng, depth)
+        };
+        let mut src = String::new();
+        frender(&ast, 0, rng, &mut src);
+        let mode = if rng.gen_range(0..6) == 0 { Mode::Imm } else { Mode::Mut };
+        // the shadow walk: which primitive facts the specification will need (see the head of this section)
+        {
+            let mut sh = Shadow { env: env.clone(), floats: &mut rec.floats, pairs: &mut rec.pairs, mutable: mode == Mode::Mut };
+            let _ = sh.eval(&ast);
+            if mode == Mode::Mut {
+                env = sh.env;
+            }
+        }
+        let kind = match rng.gen_range(0..10) {
+            0 => Kind::Float,
+            1 => Kind::Number,
+            2 => Kind::Int,
+            _ => Kind::Value,
+        };
+        let tree_level = rng.gen_bool(0.3);
+        log.lock().unwrap().clear();
+        let tree = guard(|| build_operator_tree::<DefaultNumericTypes>(&src));
+        let r = guard(|| {
+            if tree_level {
+                match build_operator_tree::<DefaultNumericTypes>(&src) {
+                    Ok(t) => call_tree(kind, mode, &t, &mut c),
+                    Err(e) => Err(e),
+                }
+            } else {
+                call_string(kind, mode, &src, &mut c)
+            }
+        });
+        let post = project_hashmap(&c, &probe, &log).unwrap_or_else(|e| json!({"error": e}));
+        let mut ev = json!({"ev": "eval", "slot": 0, "src": cps(&src), "level": if tree_level { "tree" } else { "string" },
+                            "ek": kind.name(), "mode": mode.name(), "res": res_json(&r), "post": post, "log": log_json(&[])});
+        if let Ok(Ok(t)) = &tree {
+            ev["tree"] = enc_tree(&normalise(t));
+        }
+        rec.emit(ev);
+        if r.is_err() {
+            fresh = true;
+        }
+    }
 }
